@@ -50,6 +50,7 @@ type EQuant struct {
 }
 type ECond struct{ C, A, B Expr }
 type EOld struct{ X Expr }
+type EPrev struct{ X Expr }
 type ESum struct {
 	Var    string
 	Lo, Hi Expr
@@ -66,6 +67,7 @@ type Clause struct {
 
 type LoopSpec struct {
 	Hints      []Clause // checked, then assumed, at the head of the arbitrary iteration (after the invariant)
+	Steps      []Clause // checked on every back edge; prev(e) is e at the head of the iteration
 	OnExit     []Clause // bottom-tested loops: checked, then assumed, on the exit edge of the latch (loop variables already incremented)
 	Invariants []Clause
 	Decreases  Expr
@@ -82,37 +84,37 @@ type Param struct {
 type ModLoc struct {
 	CastType string
 	Field    string
-	E    Expr // location expression
-	Kind string // "field" (x.f), "elems" (s[*]), "range" (s[a:b]), "cell" (*p), "allfields" (x.*), "map" (m[*])
-	Lo   Expr
-	Hi   Expr
-	Src  string
+	E        Expr   // location expression
+	Kind     string // "field" (x.f), "elems" (s[*]), "range" (s[a:b]), "cell" (*p), "allfields" (x.*), "map" (m[*])
+	Lo       Expr
+	Hi       Expr
+	Src      string
 }
 
 type FuncSpec struct {
-	Pkg      string // import path of the contract file's package ("" for extern)
-	Recv     string // receiver type text, e.g. "*dataRecord" or "" ; for extern: unused
-	RecvName string
-	Name     string // function name (with $k for closures) ; for extern: full ssa name
-	Extern   bool
-	Params   []Param
-	Results  []Param
-	Requires []Clause
-	Ensures  []Clause
-	Modifies []ModLoc
-	ModAny   bool // modifies * : anything
-	Loops    map[int]*LoopSpec
-	Lets     []Param // name = expr source (macro)
-	LetExprs map[string]Expr
-	Replay   string
-	ReplayKV [][2]string
-	Trusted  bool
+	Pkg        string // import path of the contract file's package ("" for extern)
+	Recv       string // receiver type text, e.g. "*dataRecord" or "" ; for extern: unused
+	RecvName   string
+	Name       string // function name (with $k for closures) ; for extern: full ssa name
+	Extern     bool
+	Params     []Param
+	Results    []Param
+	Requires   []Clause
+	Ensures    []Clause
+	Modifies   []ModLoc
+	ModAny     bool // modifies * : anything
+	Loops      map[int]*LoopSpec
+	Lets       []Param // name = expr source (macro)
+	LetExprs   map[string]Expr
+	Replay     string
+	ReplayKV   [][2]string
+	Trusted    bool
 	InlineOnly bool // carries loop invariants for a function that is only verified inlined into its caller
-	Pure     bool // (for extern) no heap effect at all
-	File     string
-	Line     int
-	Captures []Param // for closures: names bound to free variables, positional
-	CallPre  map[string][]Clause // extra assertions at every call of a named callee inside this unit
+	Pure       bool // (for extern) no heap effect at all
+	File       string
+	Line       int
+	Captures   []Param             // for closures: names bound to free variables, positional
+	CallPre    map[string][]Clause // extra assertions at every call of a named callee inside this unit
 }
 
 func (f *FuncSpec) Key() string {
@@ -164,13 +166,14 @@ type AbstractFunc struct {
 
 type SpecDB struct {
 	GhostGlobals map[string]string // name -> Go type text
-	Abstracts map[string]*AbstractFunc
-	Funcs  map[string]*FuncSpec
-	Pures  map[string]*PureFunc
-	Ghosts []GhostDecl
-	Lemmas []*LemmaSpec
-	Guards []GuardDecl
-	Files  []string
+	Abstracts    map[string]*AbstractFunc
+	Funcs        map[string]*FuncSpec
+	Pures        map[string]*PureFunc
+	Ghosts       []GhostDecl
+	Opens        []GhostDecl
+	Lemmas       []*LemmaSpec
+	Guards       []GuardDecl
+	Files        []string
 }
 
 func NewSpecDB() *SpecDB {
@@ -572,6 +575,12 @@ func (l *lexer) parsePrimary() Expr {
 			x := l.parseExpr()
 			l.expect(")")
 			return EOld{x}
+		case "prev":
+			// prev(e): in a loop step clause, e at the head of the iteration that just ran
+			l.expect("(")
+			x := l.parseExpr()
+			l.expect(")")
+			return EPrev{x}
 		case "sum":
 			// sum(j in [lo,hi): body)
 			l.expect("(")
@@ -659,7 +668,7 @@ func readSpecLines(path string) ([]string, []int, error) {
 var clauseKeywords = map[string]bool{
 	"pure": true, "ghost": true, "func": true, "extern": true, "requires": true, "ensures": true,
 	"modifies": true, "loop": true, "let": true, "replay": true, "trusted": true, "lemma": true,
-	"guarded": true, "captures": true, "noeffect": true, "hint": true, "abstract": true, "callpre": true, "inlined": true,
+	"guarded": true, "captures": true, "noeffect": true, "hint": true, "abstract": true, "callpre": true, "inlined": true, "open": true,
 }
 
 // joinClauses merges continuation lines (lines whose first word is not a keyword).
@@ -705,6 +714,9 @@ func (db *SpecDB) LoadFile(path, pkg string) error {
 			if err != nil {
 				return fail(i, "%v", err)
 			}
+			if old, dup := db.Pures[p.Name]; dup && old != nil {
+				return fail(i, "pure %s is already defined (pure functions share one namespace)", p.Name)
+			}
 			db.Pures[p.Name] = p
 			cur = nil
 		case "abstract":
@@ -719,6 +731,19 @@ func (db *SpecDB) LoadFile(path, pkg string) error {
 				return fail(i, "%v", err)
 			}
 			db.Abstracts[strings.TrimSpace(rest[:i0])] = &AbstractFunc{Name: strings.TrimSpace(rest[:i0]), Params: ps, Ret: strings.TrimSpace(rest[j0+1:])}
+			cur = nil
+		case "open":
+			// open field T.name : model the named field of a struct type declared outside the repository
+			w2, r2 := splitWord(rest)
+			if w2 != "field" {
+				return fail(i, "expected 'open field T.name'")
+			}
+			tn := strings.TrimSpace(r2)
+			k := strings.LastIndex(tn, ".")
+			if k < 0 {
+				return fail(i, "open field needs T.name")
+			}
+			db.Opens = append(db.Opens, GhostDecl{Type: tn[:k], Name: tn[k+1:], Pkg: pkg})
 			cur = nil
 		case "ghost":
 			// ghost field T.name type
@@ -875,6 +900,14 @@ func (db *SpecDB) LoadFile(path, pkg string) error {
 					return fail(i, "%v", err)
 				}
 				ls.OnExit = append(ls.OnExit, Clause{label, e, src})
+			case "step":
+				// checked on every back edge: relates the end of an iteration to its head (prev)
+				label, src := splitLabel(r3)
+				e, err := ParseExpr(src)
+				if err != nil {
+					return fail(i, "%v", err)
+				}
+				ls.Steps = append(ls.Steps, Clause{label, e, src})
 			case "hint":
 				label, src := splitLabel(r3)
 				e, err := ParseExpr(src)
@@ -1199,7 +1232,9 @@ func parseModLoc(s string) (ModLoc, error) {
 				ml.E, ml.Kind = e, "ghostglobal"
 				return ml, nil
 			}
-			return ml, fmt.Errorf("modifies: unsupported location %q", s)
+			// a package-level variable of the function's package
+			ml.E, ml.Kind = e, "global"
+			return ml, nil
 		case ESlice:
 			ml.E, ml.Kind, ml.Lo, ml.Hi = x.X, "range", x.Lo, x.Hi
 		case ESel:
